@@ -305,6 +305,12 @@ for _p in ('C07', 'C06', 'C01'):
     PROPS[_p]['contracts'] = PROPS[_p]['contracts'] + DECODE
 for _p in ('C11', 'C05', 'C07'):
     PROPS[_p]['tables'] = PROPS[_p]['tables'] + ['mark']
+PROPS['C18']['contracts'] = PROPS['C18']['contracts'] + [(D, 'ber.decoder::ConstructedPayloadDecoderBase.valueDecoder@open-types'), (D, 'ber.decoder::ConstructedPayloadDecoderBase.indefLenValueDecoder@open-types')]
+PROPS['C18']['level_text'] = ('Resolution by governing value is a discharged contract on the open-type region of both constructed '
+                              'decoders: the caller\'s openTypes map is consulted first, the map declared with the type second, an unresolved '
+                              'governing value leaves the captured octets in place; capturing reads exactly the element (read / wrapper / ANY '
+                              'contracts). Wrapping on encode, tagging variants and SET OF containers are bounded stand-ins over 4 codecs x 3 '
+                              'taggings x 3 containers x 2 governor kinds x 4 inner values.')
 BS = 'contracts.base'
 BASE = [(BS, 'type.base::SimpleAsn1Type.__init__'), (BS, 'type.base::SimpleAsn1Type.clone'),
         (BS, 'type.base::SimpleAsn1Type.subtype')]
@@ -321,6 +327,8 @@ for _p in ('C01', 'C03', 'C09'):
 PROPS['C07']['contracts'] = PROPS['C07']['contracts'] + [c for c in WRAPPER if c not in PROPS['C07']['contracts']]
 for _p in ('C13', 'C15', 'C16'):
     PROPS[_p]['contracts'] = PROPS[_p]['contracts'] + TAGMAP
+for _p in ('C13', 'C01', 'C18'):
+    PROPS[_p]['contracts'] = PROPS[_p]['contracts'] + [(TG, 'type.univ::Any.tagMap')]
 PROPS['C13']['contracts'] = PROPS['C13']['contracts'] + TAGS
 PROPS['C13']['level_text'] = ('Identifier octets equal X.690 8.1.2 for every class/format/number (encodeTag) and are parsed back by '
                               'the tag region of the decoder (any long form, base-128 value, cache invariant); one header per tag from '
@@ -330,7 +338,8 @@ PROPS['C13']['level_text'] = ('Identifier octets equal X.690 8.1.2 for every cla
                               'UNIVERSAL. Accept/reject against perturbed types and whole stacks are a bounded stand-in.')
 PROPS['C04']['contracts'] = PROPS['C04']['contracts'] + ENC_CONTENT[5:6]
 UN = 'contracts.univ_native'
-CHOICE = [(UN, 'type.univ::Choice.setComponentByPosition'), (UN, 'type.univ::Choice.clear'), (UN, 'type.univ::Choice.reset')]
+CHOICE = [(UN, 'type.univ::Choice.setComponentByPosition'), (UN, 'type.univ::Choice.clear'), (UN, 'type.univ::Choice.reset'),
+          (UN, 'type.univ::Choice.__eq__[choice-vs-choice]')]
 PROPS['C19']['contracts'] = CHOICE
 PROPS['C19']['level_text'] = ('CHOICE holds at most one alternative: Choice.setComponentByPosition / clear / reset preserve the '
                               'single-alternative invariant and a refused assignment changes nothing (contracts on the real '
@@ -348,7 +357,8 @@ PROPS['C18']['level_text'] = ('Capturing is proved: an untagged ANY captures exa
                               'AnyPayloadDecoder.valueDecoder over the stream model; reads and back-tracking by the '
                               'read/wrapper contracts). Resolution by governing value and wrapping on encode are bounded '
                               'stand-ins over 4 codecs x 3 taggings x 3 containers x 2 governor kinds x 4 inner values.')
-PROPS['C04']['contracts'] = PROPS['C04']['contracts'] + CHOICE[:1]
+PROPS['C04']['contracts'] = PROPS['C04']['contracts'] + CHOICE[:1] + CHOICE[3:]
+PROPS['C03']['contracts'] = PROPS['C03']['contracts'] + CHOICE[3:]
 PROPS['C11']['contracts'] = PROPS['C11']['contracts'] + [(UN, 'ber.decoder::AnyPayloadDecoder.valueDecoder[untagged,complete]')]
 
 for _p in list(PROPS):
